@@ -95,6 +95,10 @@ def kf_empty_host_eager(f):
         return False
     if obs.get("route") != "str":
         return False
+    # only comparisons between the parsed object and a cache-free / pristine counterpart; an object that CHANGES (immutability clause) is never this finding
+    if not f["clause"].startswith(("accessor values differ between a URL and its cache-free twin", "an intermediate URL of the program differs from its cache-free twin",
+                                   "a cache-free clone of a live URL observes differently", "the outcome of a call depends on history")):
+        return False
     fields = obs["fields"]
     step = obs.get("step")
     if fields is None and isinstance(step, (list, tuple)) and len(step) == 3 and step[0] == "selfmod" and step[2] in ("with_host", "with_host_raw"):
